@@ -109,22 +109,24 @@ func operand(e ast.Expr) string {
 	return "_"
 }
 
-// the shape of a condition: its comparisons (`_ > _`, `_ == 0`, `_ != nil`, `_ == align.ALL_AMINO` …) and its
-// Tip() tests, joined by the boolean operators of the source; variable names play no part
-func shape(e ast.Expr) string {
+// the shape of a condition: its boolean structure with every comparison replaced by `#` (the comparisons themselves
+// are collected in `atoms` as (left operand, operator, right operand) and are EVALUATED on probes by the Lean side, so
+// that `c > 1` and `c >= 2`, or `max < c` and `c > max`, are the same row) and its Tip() tests; variable names play no part
+func shape(e ast.Expr, atoms *[][3]string) string {
 	switch x := e.(type) {
 	case *ast.ParenExpr:
-		return "(" + shape(x.X) + ")"
+		return "(" + shape(x.X, atoms) + ")"
 	case *ast.UnaryExpr:
 		if x.Op == token.NOT {
-			return "!" + shape(x.X)
+			return "!" + shape(x.X, atoms)
 		}
 	case *ast.BinaryExpr:
 		switch x.Op {
 		case token.LAND, token.LOR:
-			return shape(x.X) + " " + x.Op.String() + " " + shape(x.Y)
+			return shape(x.X, atoms) + " " + x.Op.String() + " " + shape(x.Y, atoms)
 		case token.EQL, token.NEQ, token.LSS, token.LEQ, token.GTR, token.GEQ:
-			return operand(x.X) + " " + x.Op.String() + " " + operand(x.Y)
+			*atoms = append(*atoms, [3]string{operand(x.X), x.Op.String(), operand(x.Y)})
+			return "#"
 		}
 	case *ast.CallExpr:
 		if sel, ok := x.Fun.(*ast.SelectorExpr); ok && sel.Sel.Name == "Tip" {
@@ -144,10 +146,15 @@ func isLit(e ast.Expr) bool {
 	return false
 }
 
-// selection predicates (shapes), stored constants, counters of one function, in source order; conditions without
+type skelRow struct {
+	text  string
+	atoms [][3]string
+}
+
+// selection predicates, stored constants, counters of one function, in source order; conditions without
 // comparison or Tip() test (`if ok`, `if randomResolve`) are left out
-func skeleton(fd *ast.FuncDecl) []string {
-	var out []string
+func skeleton(fd *ast.FuncDecl) []skelRow {
+	var out []skelRow
 	loopStep := map[ast.Node]bool{} // the init / post statements of a `for` clause are loop plumbing, not counters
 	ast.Inspect(fd.Body, func(n ast.Node) bool {
 		if n != nil && loopStep[n] {
@@ -162,19 +169,32 @@ func skeleton(fd *ast.FuncDecl) []string {
 				loopStep[x.Post] = true
 			}
 		case *ast.IfStmt:
-			if sh := shape(x.Cond); sh != "_" && sh != "!_" {
-				out = append(out, "if "+sh)
+			var atoms [][3]string
+			if sh := shape(x.Cond, &atoms); sh != "_" && sh != "!_" {
+				out = append(out, skelRow{"if " + sh, atoms})
 			}
 		case *ast.AssignStmt:
 			if len(x.Lhs) == 1 && len(x.Rhs) == 1 && isLit(x.Rhs[0]) {
-				out = append(out, "_ "+x.Tok.String()+" "+types.ExprString(x.Rhs[0]))
+				out = append(out, skelRow{"set", [][3]string{{"_", x.Tok.String(), types.ExprString(x.Rhs[0])}}})
 			}
 		case *ast.IncDecStmt:
-			out = append(out, "_"+x.Tok.String())
+			out = append(out, skelRow{"_" + x.Tok.String(), nil})
 		}
 		return true
 	})
 	return out
+}
+
+func leanRows(rows []skelRow) string {
+	q := make([]string, len(rows))
+	for i, r := range rows {
+		a := make([]string, len(r.atoms))
+		for k, t := range r.atoms {
+			a[k] = fmt.Sprintf("(%s, %s, %s)", lq(t[0]), lq(t[1]), lq(t[2]))
+		}
+		q[i] = fmt.Sprintf("(%s, [%s])", lq(r.text), strings.Join(a, ", "))
+	}
+	return "[" + strings.Join(q, ", ") + "]"
 }
 
 // the `switch algo` of ParsimonyAcr / ParsimonyAsr: (case label, callee, last argument); a clause without call gives
@@ -350,17 +370,17 @@ func GenTables(repo, out string) error {
 		for _, r := range dispatch(entry) {
 			disp = append(disp, fmt.Sprintf("(%s, %s, %s, %s)", lq(pkg), lq(r[0]), lq(r[1]), lq(r[2])))
 		}
-		start = append(start, fmt.Sprintf("(%s, %s)", lq(pkg), lqs(skeleton(entry))))
+		start = append(start, fmt.Sprintf("(%s, %s)", lq(pkg), leanRows(skeleton(entry))))
 		for _, fn := range passFuncs {
 			if fd := fs[fn]; fd != nil {
-				skel = append(skel, fmt.Sprintf("(%s, %s, %s)", lq(pkg), lq(fn), lqs(skeleton(fd))))
+				skel = append(skel, fmt.Sprintf("(%s, %s, %s)", lq(pkg), lq(fn), leanRows(skeleton(fd))))
 			}
 		}
 	}
 	fmt.Fprintf(&b, "/-- (package, constant, value) -/\ndef algoConsts : List (String × String × Nat) := [\n  %s]\n\n", strings.Join(consts, ",\n  "))
 	fmt.Fprintf(&b, "/-- `switch algo`: (package, case, function called, its last argument) -/\ndef dispatch : List (String × String × String × String) := [\n  %s]\n\n", strings.Join(disp, ",\n  "))
-	fmt.Fprintf(&b, "/-- predicates / constants of ParsimonyAcr, ParsimonyAsr themselves -/\ndef entry : List (String × List String) := [\n  %s]\n\n", strings.Join(start, ",\n  "))
-	fmt.Fprintf(&b, "/-- (package, function, selection predicates / stored constants / counters in source order) -/\ndef skeleton : List (String × String × List String) := [\n  %s]\n\n", strings.Join(skel, ",\n  "))
+	fmt.Fprintf(&b, "/-- predicates / constants of ParsimonyAcr, ParsimonyAsr themselves -/\ndef entry : List (String × List (String × List (String × String × String))) := [\n  %s]\n\n", strings.Join(start, ",\n  "))
+	fmt.Fprintf(&b, "/-- (package, function, rows in source order); a row = (text, comparisons): `if <boolean structure, # = a comparison>`, `set` (a constant stored: (_, := or =, literal)), `_++` -/\ndef skeleton : List (String × String × List (String × List (String × String × String))) := [\n  %s]\n\n", strings.Join(skel, ",\n  "))
 	var tags, algos, deflts, flags, calls []string
 	for _, c := range []string{"acr", "asr"} {
 		f, err := parseOne(repo, "cmd/"+c+".go")
